@@ -100,8 +100,8 @@ Definition is_mux (l : list sigl) (id : Z) : bool :=
 Definition decode_all (l : list sigl) (data : list Z) : list (Z * Z) :=
   decode_loop (be_lookup l) data (gen_filters l) None 0 0 [].
 
-(* what the property names: decodeSignal yields nil for a multiplexer; the projection keeps the
-   standard and enum signals *)
+(* Decode: decodeSignal yields nil for a multiplexer and Decode does not append it (fix 7bf3900):
+   one entry per standard / enum signal *)
 Definition decode (l : list sigl) (data : list Z) : list (Z * Z) :=
   filter (fun p => negb (is_mux l (fst p))) (decode_all l data).
 
